@@ -21,7 +21,10 @@ pub fn with_parser<R>(
     sort: Sort,
     f: impl FnOnce(&AdfParser) -> R,
 ) -> Result<R, String> {
-    with_parser_opt(text, sort, false, f)
+    // every fourth text (by a hash of the text) re-uses its parser object: ADFs are built from it in
+    // parse order first, the sorting is applied afterwards and only then the object is handed out
+    let reuse = sort != Sort::None && text.bytes().fold(0u32, |a, b| a.wrapping_mul(31).wrapping_add(b as u32)) % 4 == 0;
+    with_parser_opt(text, sort, reuse, f)
 }
 
 /// As `with_parser`; with `reuse` the parser object is first used to build ADFs in parse order
@@ -42,8 +45,14 @@ pub fn with_parser_opt<R>(
         Err(e) => return Err(format!("parse error: {e}")),
     }
     if reuse {
-        let _ = Adf::from_parser(&parser);
-        let _ = parser.var_container();
+        // (only when every statement with a condition is declared: instantiation panics otherwise)
+        let declared_ok = (0..parser.dict_size() + 64).map_while(|i| parser.ac_at(i)).count() > 0;
+        if declared_ok {
+            let _ = std::panic::catch_unwind(std::panic::AssertUnwindSafe(|| {
+                let _ = Adf::from_parser(&parser);
+                let _ = BdAdf::from_parser(&parser);
+            }));
+        }
     }
     match sort {
         Sort::None => {}
